@@ -1,5 +1,7 @@
 import MobiusModel.Transfers
+import MobiusModel.UploadHistory
 import MobiusModel.Generated.Consts
+import MobiusModel.Generated.FileStore
 /-!
   C09 — Uploads are exact, published atomically, resumable after any cut.
 
@@ -130,12 +132,70 @@ theorem download_returns_upload (h : ClientOK fc i d r) (cuts : List Nat) (x : B
   rw [splitDownload_header _ _ _ _ f.data.length hfw hisz (by simp)]
   rw [List.take_left' rfl, List.drop_left' rfl, hd, hxd]
 
+-- ---------------------------------------------------------------- wave d: histories with time, the client ASKS
+
+/-- **Every resume of every history reports exactly the bytes held.**  A history is any list of
+    events — attempts cut at any byte, requests whose transfer never starts, idle periods of any length,
+    modification times moved to anything — and the client continues from the offset in the server's
+    REPLY.  Whenever a reply carries an offset (the first resume, the second, … the n-th; however long
+    the partial file lay idle and however quickly the request follows the previous one), the resume
+    option was asked, nothing is published, and the partial file holds exactly the client's first
+    `off` bytes; before and after every request the two names satisfy the property's state predicate. -/
+theorem every_resume_reports_bytes_held (h : ClientOK fc i d r) (evs : List UpEv) :
+    ∀ o ∈ (upHistory ref fc i d r evs).trace,
+      o.before.Good d ∧ o.after.Good d ∧
+      ∀ off, o.reply = .ok (some off) →
+        o.resumeAsked = true ∧ o.before.final = none ∧ off ≤ d.length ∧ o.before.inc = some (d.take off) :=
+  foldl_step_trace ref fc i d r h evs {} (UpState.good_init d) (by intro o ho; cases ho)
+
+/-- **Timing is irrelevant**: the two names after a timed history are the names after the plain run
+    over its cuts (`uploadRun`, to which every theorem above applies) — idle periods, moved
+    modification times and requests without a transfer change nothing, and continuing from the
+    REPORTED offset is continuing from the size of the partial file. -/
+theorem timing_is_irrelevant (h : ClientOK fc i d r) (evs : List UpEv) :
+    (upHistory ref fc i d r evs).st = uploadRun ref fc i d r (cutsOf evs) :=
+  foldl_step_st ref fc i d r h evs {} (UpState.good_init d)
+
+/-- Hence every timed history satisfies the invariant, and one that ends with an uncut attempt has
+    published exactly the client's bytes. -/
+theorem timed_history_good (h : ClientOK fc i d r) (evs : List UpEv) : (upHistory ref fc i d r evs).st.Good d := by
+  rw [timing_is_irrelevant ref fc i d r h]; exact invariant_all_histories ref fc i d r h _
+
+theorem cutsOf_append (a b : List UpEv) : cutsOf (a ++ b) = cutsOf a ++ cutsOf b := by
+  induction a with
+  | nil => rfl
+  | cons e es ih => cases e <;> simp [cutsOf, ih]
+
+theorem timed_history_completes (h : ClientOK fc i d r) (evs : List UpEv) (c : Nat)
+    (hc : 16 + (uploadStream fc i d r).length ≤ c) :
+    (upHistory ref fc i d r (evs ++ [.attempt c])).st = { final := some d, inc := none } := by
+  rw [timing_is_irrelevant ref fc i d r h, cutsOf_append]
+  exact uncut_attempt_completes ref fc i d r h (cutsOf evs) c hc
+
+/-- The reply to a request is a function of the two names alone: two worlds that agree on them — whatever
+    their clocks, modification times and past — answer alike. -/
+theorem reply_ignores_time (w w' : UpWorld) (hst : w.st = w'.st) (b : Bool) :
+    ((w.step ref fc i d r (.ask b)).trace.getLast?).map (·.reply) = ((w'.step ref fc i d r (.ask b)).trace.getLast?).map (·.reply) := by
+  simp [UpWorld.step, hst]
+
+
 /-! Obligations over the constants regenerated from /repo's source on every run. -/
 
 /-- The partial file's name is the final name plus this suffix (the model's `inc` component). -/
 theorem generated_incomplete_suffix :
     Generated.stringConsts.lookup "IncompleteFileSuffix" = some ".incomplete" ∧
     Generated.miscConsts.lookup "FileUpload" = some 1 := by decide
+
+/-- The production file store answers from the file system on every call: every method of `OSFileStore` is
+    one `return os.F(<its parameters>)`, the struct has no fields and its file declares no package-level
+    variable — no state between calls, so `Stat(<name>.incomplete)` in `HandleUploadFile` sees what
+    `UploadHandler` appended through `os.OpenFile` (the premise of `upHistory`: a request reads the names
+    themselves). -/
+theorem generated_file_store_is_stateless :
+    (∀ m ∈ Generated.osFileStoreMethods, m.2.1 = 1 ∧ m.2.2.1 = true) ∧
+    Generated.osFileStoreMethods.lookup "Stat" = some (1, true, "os.Stat") ∧
+    Generated.osFileStoreMethods.lookup "Rename" = some (1, true, "os.Rename") ∧
+    Generated.osFileStoreFields = [] ∧ Generated.fileStoreVars = [] := by decide
 
 -- ---------------------------------------------------------------- non-vacuity
 
@@ -153,5 +213,13 @@ example : handleUploadFile { inc := some [10, 11, 12] } true = .ok (some 3) := b
 -- fork count 3: a cut inside the resource fork leaves the data complete but unpublished
 example : uploadRun 7 3 exInfo exData [1, 2] [16 + 135 + 10 + 16 + 1] = { inc := some exData } := by decide +kernel
 example : uploadRun 7 3 exInfo exData [1, 2] [16 + 135 + 10 + 16 + 1, 16 + 135 + 0 + 16 + 2] = { final := some exData } := by decide +kernel
+
+-- wave d: cut 3 bytes into the data, the partial file lies idle for a minute, resume cut 2 bytes further, an
+-- immediate second resume request (no transfer), an immediate third attempt: the replies carry 3, 5, 5
+example : ((upHistory 7 2 exInfo exData [] [.attempt (16 + 135 + 3), .idle 60, .touch 0 0, .attempt (16 + 135 + 2), .ask true,
+    .attempt 1000]).trace.map (·.reply)) = [.ok none, .ok (some 3), .ok (some 5), .ok (some 5)] := by decide +kernel
+example : (upHistory 7 2 exInfo exData [] [.attempt (16 + 135 + 3), .idle 60, .touch 0 0, .attempt (16 + 135 + 2), .ask true,
+    .attempt 1000]).st = { final := some exData } := by decide +kernel
+example : cutsOf [.attempt 5, .idle 60, .touch 0 0, .attempt 7, .ask true] = [5, 7] := by decide
 
 end Mobius.C09
